@@ -282,7 +282,7 @@ def cells_equal(run, a, b, what, case):
     if (ma is None) != (mb is None) or (ma is not None and not within_decimals(ma, mb, 8)):
         bad.append("magnetic moments %s vs %s" % (ma, mb))
     for t in bad:
-        run.violation("Phonopy.save/phonopy.load", "cell-not-reproduced", "%s: %s" % (what, t), case)
+        run.violation("Phonopy.save/load", "cell-not-reproduced", "%s: %s" % (what, t), case)
     return not bad
 
 
@@ -431,13 +431,13 @@ def part_saveload(run, rng, rs, lines, meta):
             ok &= cells_equal(run, ph.supercell, ph2.supercell, "supercell", case)
             ok &= cells_equal(run, ph.primitive, ph2.primitive, "primitive cell", case)
             if not np.array_equal(ph.supercell_matrix, ph2.supercell_matrix):
-                run.violation("Phonopy.save/phonopy.load", "matrix-not-reproduced", "supercell matrix", case)
+                run.violation("Phonopy.save/load", "matrix-not-reproduced", "supercell matrix", case)
             if not within_decimals(ph.primitive_matrix, ph2.primitive_matrix, 15):
-                run.violation("Phonopy.save/phonopy.load", "matrix-not-reproduced", "primitive matrix", case)
+                run.violation("Phonopy.save/load", "matrix-not-reproduced", "primitive matrix", case)
             if ph2.calculator != ph.calculator:
-                run.violation("Phonopy.save/phonopy.load", "calculator-not-reproduced", "%r vs %r" % (ph.calculator, ph2.calculator), case)
+                run.violation("Phonopy.save/load", "calculator-not-reproduced", "%r vs %r" % (ph.calculator, ph2.calculator), case)
             if abs(ph2.unit_conversion_factor - ph.unit_conversion_factor) > 1e-12 * abs(ph.unit_conversion_factor):
-                run.violation("Phonopy.save/phonopy.load", "factor-not-default", "frequency factor %r vs %r" % (ph.unit_conversion_factor, ph2.unit_conversion_factor), case)
+                run.violation("Phonopy.save/load", "factor-not-default", "frequency factor %r vs %r" % (ph.unit_conversion_factor, ph2.unit_conversion_factor), case)
             # dataset (as far as the settings wrote it)
             exp_ds = ph.dataset
             if exp_ds is not None and not (st.get("force_sets", True) or st.get("displacements", True)):
@@ -450,11 +450,11 @@ def part_saveload(run, rng, rs, lines, meta):
                 else:
                     exp_ds.pop("forces", None)
             for t in dataset_equal(exp_ds, ph2.dataset):
-                run.violation("Phonopy.save/phonopy.load", "dataset-not-reproduced", t, case)
+                run.violation("Phonopy.save/load", "dataset-not-reproduced", t, case)
             # NAC
             exp_nac = ph.nac_params if (st.get("born_effective_charge", True) and st.get("dielectric_constant", True)) else None
             for t in nac_equal(exp_nac, ph2.nac_params):
-                run.violation("Phonopy.save/phonopy.load", "nac-not-reproduced", t, case)
+                run.violation("Phonopy.save/load", "nac-not-reproduced", t, case)
             if exp_nac is not None and ph2.nac_params is not None:
                 f1 = exp_nac.get("factor", None)
                 f2 = ph2.nac_params.get("factor", None)
@@ -463,11 +463,18 @@ def part_saveload(run, rng, rs, lines, meta):
                 if f1 is None:
                     f1 = get_default_physical_units(ph.calculator)["nac_factor"]
                 if f2 is None or not within_decimals(f1, f2, 6):
-                    run.violation("Phonopy.save/phonopy.load", "nac-factor-not-reproduced", "unit_conversion_factor %r vs %r" % (f1, f2), case)
-            # force constants
+                    run.violation("Phonopy.save/load", "nac-factor-not-reproduced", "unit_conversion_factor %r vs %r" % (f1, f2), case)
+            # force constants: an object that has them must have them again after the round trip, unless the
+            # settings exclude them explicitly (and the forces they could be re-derived from)
+            forces_excluded = ds_flag(ph.dataset) == "forces" and not st.get("force_sets", True)
+            if (ph.force_constants is not None and ph2.force_constants is None and st.get("force_constants") is not False
+                    and not forces_excluded and "produce_fc" not in kw):
+                run.violation("Phonopy.save/load", "fc-lost",
+                              "the saved object has force constants, the reloaded one has none (dataset: %s, settings %r, force constants %s the file)"
+                              % (ds_flag(ph.dataset), st, "in" if written_fc else "not in"), case)
             if written_fc:
                 if ph2.force_constants is None or not within_decimals(ph.force_constants, ph2.force_constants, 15):
-                    run.violation("Phonopy.save/phonopy.load", "fc-not-reproduced",
+                    run.violation("Phonopy.save/load", "fc-not-reproduced",
                                   "force constants differ by %.3g" % (float("inf") if ph2.force_constants is None else maxdiff(ph.force_constants, ph2.force_constants)), case)
             # phonons
             if ph.force_constants is not None and ph2.force_constants is not None and (written_fc or v["fc"] == "produced"):
@@ -483,7 +490,7 @@ def part_saveload(run, rng, rs, lines, meta):
                         fa = ph.nac_params.get("factor", 1.0) or 1.0
                         nacf_ok = abs(fa) > 1e-2
                     if nacf_ok and maxdiff(f1, f2) > tol:
-                        run.violation("Phonopy.save/phonopy.load", "phonons-not-reproduced",
+                        run.violation("Phonopy.save/load", "phonons-not-reproduced",
                                       "frequencies differ by %.3g THz" % maxdiff(f1, f2), case)
                     run.count("phonons compared after reload", section="oracle")
         run.case(("saveload", repr(sorted((k, str(x)) for k, x in v.items()))), nontrivial=v["dataset"] is not None or v["fc"] is not None)
@@ -773,6 +780,86 @@ def part_fileio(run, rng, rs, lines, meta):
 
 
 # --------------------------------------------------------------------------
+# part F: BORN files on crystals whose dependent atoms are reached by 3-/4-/6-fold operations
+# --------------------------------------------------------------------------
+
+def quartz_cell():
+    """alpha-quartz-like cell (P3_1 2 1): Si on 3a, O on the general position 6c"""
+    from phonopy.structure.atoms import PhonopyAtoms
+
+    a, c = 4.91, 5.40
+    lat = np.array([[a, 0, 0], [-a / 2, a * np.sqrt(3) / 2, 0], [0, 0, c]])
+    u = 0.4697
+    x, y, z = 0.4135, 0.2669, 0.1191
+    si = [[u, 0, 0], [0, u, 1 / 3], [-u, -u, 2 / 3]]
+    ox = [[x, y, z], [-y, x - y, z + 1 / 3], [-x + y, -x, z + 2 / 3], [y, x, -z], [x - y, -y, -z + 2 / 3], [-x, -x + y, -z + 1 / 3]]
+    return PhonopyAtoms(cell=lat, symbols=["Si"] * 3 + ["O"] * 6, scaled_positions=np.mod(np.array(si + ox), 1.0))
+
+
+def part_born(run, rng, rs, lines, meta):
+    import phonopy
+    from phonopy import Phonopy, file_IO
+    from phonopy.structure.symmetry import Symmetry, symmetrize_borns_and_epsilon
+
+    thorough = run.tier == "thorough"
+    names = ["perovskite", "rutile", "quartz", "wurtzite", "hcp", "nacl_prim", "zincblende_prim", "cscl"]
+    reps = 4 if thorough else 1
+    for name in names:
+        cell = quartz_cell() if name == "quartz" else gen.make_cell(name)[0]
+        ph = Phonopy(cell, supercell_matrix=np.eye(3, dtype=int), primitive_matrix="P", log_level=0)
+        prim = ph.primitive
+        npa = len(prim)
+        sym = Symmetry(prim, symprec=1e-5)
+        indep = list(sym.get_independent_atoms())
+        rots = sym.symmetry_operations["rotations"]
+        mapop = sym.get_map_operations()
+
+        def order(r):
+            m, k = np.array(r), 1
+            while not np.array_equal(m, np.eye(3, dtype=int)) and k < 12:
+                m = m @ np.array(r)
+                k += 1
+            return k
+        dep_orders = sorted({order(rots[mapop[i]]) for i in range(npa) if i not in indep})
+        for rep in range(reps):
+            born0 = rs.normal(size=(npa, 3, 3))
+            eps0 = rs.normal(size=(3, 3)) * 0.3 + np.eye(3) * 3
+            born, eps = symmetrize_borns_and_epsilon(born0, eps0, prim, symprec=1e-5)
+            # the symmetrised tensors are a fixed point: the expected values after any round trip
+            b2, e2 = symmetrize_borns_and_epsilon(born, eps, prim, symprec=1e-5)
+            if maxdiff(b2, born) > 1e-12 or maxdiff(e2, eps) > 1e-12:
+                run.violation("symmetrize_borns_and_epsilon", "not-idempotent", "symmetrised Born charges change when symmetrised again", dict(crystal=name))
+            aniso = float(max(np.abs(born[i] - np.eye(3) * np.trace(born[i]) / 3).max() for i in range(npa)))
+            case = dict(crystal=name, n_atoms=npa, independent_atoms=[int(i) for i in indep], orders_of_mapping_operations=dep_orders,
+                        born=born.tolist(), epsilon=eps.tolist())
+            tol = 6  # %13.8f, and rotation of rounded values: compare to 6 decimals ...
+            def check(nb, how):
+                if nb is None:
+                    run.violation("file_IO.get_BORN_lines/parse_BORN", "born-not-reproduced", "%s: BORN text written by phonopy is rejected by the parser" % how, case)
+                    return
+                db, de = maxdiff(nb["born"], born), maxdiff(nb["dielectric"], eps)
+                if db > 5e-8 or de > 5e-8:   # ... i.e. a few units of the 8th printed decimal
+                    bad = [int(i) for i in range(npa) if maxdiff(nb["born"][i], born[i]) > 5e-8]
+                    run.violation("file_IO.get_BORN_lines/parse_BORN", "born-not-reproduced",
+                                  "%s: Born charges differ by %.3g (atoms %s; independent atoms %s), dielectric by %.3g" % (how, db, bad, [int(i) for i in indep], de), case)
+            with TmpDir():
+                text = "\n".join(file_IO.get_BORN_lines(prim, born, eps))
+                check(file_IO.parse_BORN_from_strings(text, prim), "parse_BORN_from_strings")
+                file_IO.write_BORN(prim, born, eps, filename="BORN.test")
+                check(file_IO.parse_BORN(prim, filename="BORN.test"), "write_BORN/parse_BORN")
+                if rep == 0:
+                    fn = ph.save("cell.yaml")
+                    p2 = phonopy.load(fn, born_filename="BORN.test", produce_fc=False, log_level=0)
+                    check(p2.nac_params, "phonopy.load(born_filename=...)")
+                    file_IO.write_BORN(prim, born, eps, filename="BORN")
+                    p3 = phonopy.load(fn, produce_fc=False, log_level=0)
+                    check(p3.nac_params, "phonopy.load with BORN in the current directory")
+            run.case(("born", name, rep, born.tobytes()), nontrivial=len(indep) < npa and aniso > 1e-3)
+            run.count("BORN crystal %s (dependent atoms mapped by operations of order %s)" % (name, dep_orders))
+            run.count("BORN symmetric-crystal round trips", 4 if rep == 0 else 2, section="oracle")
+
+
+# --------------------------------------------------------------------------
 # main
 # --------------------------------------------------------------------------
 
@@ -816,6 +903,8 @@ def main(run):
     t3 = time.time()
     part_priority(run, rng, rs, lines, meta)
     t4 = time.time()
+    part_born(run, rng, rs, lines, meta)
+    run.cov["wall_born_s"] = round(time.time() - t4, 1)
     run.cov["wall_parts_s"] = dict(precision_dataset=round(t1 - t0, 1), fileio=round(t2 - t1, 1), saveload=round(t3 - t2, 1), priority=round(t4 - t3, 1))
 
     # ---------------- correspondence with the Lean models
